@@ -971,6 +971,99 @@ impl World {
 	}
 }
 
+/// registries of the world that must travel with a directory snapshot
+#[derive(Clone)]
+pub struct Regs {
+	pub slates: BTreeMap<String, SlateRec>,
+	pub reg: BTreeMap<String, String>,
+	pub reginfo: BTreeMap<String, Value>,
+	pub kern: BTreeMap<String, (String, String)>,
+	pub blocks: Vec<(String, Vec<String>)>,
+	pub posted: BTreeSet<String>,
+	pub nslates: usize,
+}
+pub struct Snapshot {
+	pub dir: String,
+	pub regs: Regs,
+}
+
+fn copy_dir(from: &std::path::Path, to: &std::path::Path) -> std::io::Result<()> {
+	std::fs::create_dir_all(to)?;
+	for e in std::fs::read_dir(from)? {
+		let e = e?;
+		let p = e.path();
+		let t = to.join(e.file_name());
+		if p.is_dir() {
+			copy_dir(&p, &t)?;
+		} else {
+			std::fs::copy(&p, &t)?;
+		}
+	}
+	Ok(())
+}
+
+impl World {
+	pub fn regs(&self) -> Regs {
+		Regs {
+			slates: self.slates.clone(),
+			reg: self.reg.clone(),
+			reginfo: self.reginfo.clone(),
+			kern: self.kern.clone(),
+			blocks: self.blocks.clone(),
+			posted: self.posted.clone(),
+			nslates: self.nslates,
+		}
+	}
+	pub fn set_regs(&mut self, r: &Regs) {
+		self.slates = r.slates.clone();
+		self.reg = r.reg.clone();
+		self.reginfo = r.reginfo.clone();
+		self.kern = r.kern.clone();
+		self.blocks = r.blocks.clone();
+		self.posted = r.posted.clone();
+		self.nslates = r.nslates;
+	}
+	/// drop every wallet instance (what process death does to the open LMDB environment)
+	pub fn close_wallets(&mut self) {
+		for (_, h) in self.wallets.iter_mut() {
+			h.inst = None;
+		}
+	}
+	pub fn reopen_all(&mut self) -> Vec<(String, String)> {
+		let names: Vec<String> = self.wallets.keys().cloned().collect();
+		names
+			.iter()
+			.map(|n| {
+				let r = self.reopen(n);
+				(n.clone(), r.res())
+			})
+			.collect()
+	}
+	/// copy of every wallet directory (wallets closed while copying) + registries
+	pub fn snapshot(&mut self, tag: &str) -> Snapshot {
+		self.close_wallets();
+		let sdir = format!("{}/snap_{}", self.dir, tag);
+		let _ = std::fs::remove_dir_all(&sdir);
+		for (n, h) in self.wallets.iter() {
+			copy_dir(std::path::Path::new(&h.dir), &std::path::Path::new(&sdir).join(n)).unwrap();
+		}
+		self.reopen_all();
+		Snapshot {
+			dir: sdir,
+			regs: self.regs(),
+		}
+	}
+	pub fn restore(&mut self, snap: &Snapshot) {
+		self.close_wallets();
+		for (n, h) in self.wallets.iter() {
+			let _ = std::fs::remove_dir_all(&h.dir);
+			copy_dir(&std::path::Path::new(&snap.dir).join(n), std::path::Path::new(&h.dir)).unwrap();
+		}
+		self.set_regs(&snap.regs);
+		self.reopen_all();
+	}
+}
+
 pub fn parse_key(k: &str) -> Option<Identifier> {
 	// "a<acct>c<child>[m]"
 	let k = k.trim_end_matches('m');
